@@ -13,6 +13,7 @@ import (
 	_ "verifmc/checks/c09"
 	_ "verifmc/checks/c10val"
 	_ "verifmc/checks/c12"
+	_ "verifmc/checks/c13"
 	_ "verifmc/checks/c14"
 	_ "verifmc/checks/c15"
 	_ "verifmc/checks/c16"
